@@ -1,7 +1,6 @@
 """Shared pieces of the C09 check: signal synthesis, oracle tables from the real library,
 exact-arithmetic helpers, and the calibrated sinusoid-recovery tolerance table."""
 import math
-from fractions import Fraction
 
 import numpy as np
 
